@@ -11,7 +11,7 @@ from prosemirror.transform import AddMarkStep, RemoveMarkStep, ReplaceStep
 
 ID = "C16"
 CORR_MODULE = "Corr.C16"
-LEVEL = "exploration"
+LEVEL = "proof"
 SHARD = 100
 
 
